@@ -113,6 +113,25 @@ def native_all(run, ns, seeds, fresh=None):
                     if fails <= 1:
                         run._report_violation(f"native[{key},n={n}]/{problems[0].split(' ')[0]}", GS.sc_generator, {"key": key, "n": n},
                                               {"seed": seed}, True, detail={"layer": "bounded", "problems": problems, "seed": seed})
+        # the same (n, seed) again AFTER larger player counts were generated in this process (state memoised per size,
+        # a table kept for the largest size seen, ...): must still be the game a fresh process returns
+        if not GS.ignores_rng(key):
+            for (k2, n2, s2), want in sorted(fresh.items()):
+                if k2 != key or not isinstance(want, np.ndarray) or n2 >= max(ns):
+                    continue
+                evals += 1
+                try:
+                    again = np.asarray(gens[key](n2, np.random.default_rng(s2)).get_values())
+                    bad = not np.array_equal(again, want)
+                except Exception:
+                    bad = True
+                if bad:
+                    fails += 1
+                    if fails <= 1:
+                        why = ("deterministic_across_histories (after larger player counts were generated in this process the "
+                               "generator returns a different game for this key, player count and seed than a fresh process)")
+                        run._report_violation(f"native[{key},n={n2}]/deterministic_after_larger_n", GS.sc_generator, {"key": key, "n": n2},
+                                              {"seed": s2}, True, detail={"layer": "bounded", "problems": [why], "seed": s2})
         run.native_evals += evals
         run.native_distinct.update(("gen", key, j) for j in range(evals))
         rows.append({"key": key, "evaluations": evals, "failures": fails})
